@@ -8,11 +8,14 @@
 (*         decryption (GB/T 32918.4 B1-B7) of it under d returns the message         *)
 (*   dec   the library's reply (message or error) is the reply of DecryptApi          *)
 (*   conv  the helper's output is the output of the TLA+ helper                       *)
+(*   menv  MarshalEnvelopedPrivateKey: Sm2EnvObj!Parse of the envelope under d gives    *)
+(*         the enveloped key;  penv  ParseEnvelopedPrivateKey's reply is Parse's reply   *)
 (* B1-B7 is evaluated in full for every enc event (MkMemo + DecryptMemo on exactly    *)
 (* its arguments); dec events on the same C1 reuse [d]C1 (memo, outside the logic).   *)
 EXTENDS Integers, Sequences, TLC, TLCExt, Json
 CONSTANT TraceFile
 O  == INSTANCE Sm2PkeObj
+E  == INSTANCE Sm2EnvObj
 S  == INSTANCE SM2
 Hx == INSTANCE Hex
 BN == INSTANCE BigNat
@@ -53,8 +56,18 @@ TConv == /\ IsEvent("conv")
                /\ r.ok => r.out = Hx!ToBytes(Ev.out)
          /\ UNCHANGED <<d, memo>>
 
+TMenv == /\ IsEvent("menv")
+         /\ Ev.err = FALSE
+         /\ E!Parse(d, Hx!ToBytes(Ev.out)) = [ok |-> TRUE, d |-> BN!Norm(Hx!ToBytes(Ev.de))]
+         /\ UNCHANGED <<d, memo>>
+TPenv == /\ IsEvent("penv")
+         /\ LET r == E!Parse(d, Hx!ToBytes(Ev.env))
+            IN /\ r.ok = ~Ev.err
+               /\ r.ok => S!F32(r.d) = Hx!ToBytes(Ev.out)
+         /\ UNCHANGED <<d, memo>>
+
 TraceInit == l = 1 /\ d = <<>> /\ memo = O!NoMemo
-TraceNext == TNew \/ TEnc \/ TDec \/ TConv
+TraceNext == TNew \/ TEnc \/ TDec \/ TConv \/ TMenv \/ TPenv
 TraceSpec == TraceInit /\ [][TraceNext]_tvars
 TraceAccepted == TLCGet("stats").diameter = Len(Tr) + 1
 =============================================================================
